@@ -154,3 +154,13 @@ def run(ctx):
     ctx.anchor(len(fam) >= 20, 'the term parser family (at least twenty erltf::decoder::parse_* bodies)')
     if n_rc == 0:
         ctx.ok('C02.2-no-remainder-copies', 'decoder', 'no copy of an input remainder in %d parser bodies' % len(fam))
+
+
+_run_before_tl_rule = run
+
+
+def run(ctx):
+    _run_before_tl_rule(ctx)
+    # "junk costs only itself": what a rejected input leaves in a buffer must not reach the next decode
+    from .c20 import thread_local_buffers
+    thread_local_buffers(ctx, 'C02.8-no-leftovers-between-calls')
